@@ -1303,6 +1303,7 @@ def _m_sorted(I, b, a, kw, node):
 # ---- strings with symbolic parts: f-strings and concatenation are ASSUMED to be functions of their parts
 STR_CONCAT = z3.Function("str_concat", z3.IntSort(), z3.IntSort(), z3.IntSort())
 STR_FMT1 = z3.Function("str_format1", z3.IntSort(), z3.IntSort(), z3.IntSort())     # (template, part) -> string
+STR_FMTI = z3.Function("str_format_int", z3.IntSort(), z3.IntSort(), z3.IntSort())  # (template, integer) -> string
 
 
 # ---- address strings: ASSUMED contract of str() / eval() on "(a, b)" keys of a scenario document
